@@ -65,8 +65,13 @@ def cks(*objs):
 PART = ['re']          # complex scenarios are validated part by part (the helpers are real-linear for a real matrix)
 
 
+SCALE = [1]            # dtype-grid scenarios carry half-integers: every logged vector is doubled (the clauses are linear)
+
+
 def vec(v):
     v = np.asarray(v)
+    if SCALE[0] != 1:
+        v = v * SCALE[0]
     if isinstance(PART[0], tuple):                      # several right-hand sides: validated column by column
         if v.ndim == 2:
             v = v[:, PART[0][1]]
@@ -127,6 +132,15 @@ def split_object(rec, n):
 
 
 def execute(rec):
+    if rec.get('half'):
+        SCALE[0] = 2
+        try:
+            evs = execute_part(rec)
+        finally:
+            SCALE[0] = 1
+        for ev in evs:
+            ev['tags'] = {'part': f"dtypes x:{rec.get('xdt')} b:{rec.get('bdt')}"}
+        return evs
     if rec.get('ncol'):
         out = []
         for j in range(rec['ncol']):
@@ -175,6 +189,13 @@ def execute_part(rec):
             if fmt != 'csr':
                 b = getattr(b, 'to' + fmt)()
         x = np.array(rec['x'], dtype=np.float64) if hasx else None
+        if rec.get('half'):
+            # operands of other dtypes: integer arrays hold the recipe's integers, floating ones half of them (so that a
+            # result forced into an integer array shows); everything logged is doubled
+            if x is not None:
+                x = x.astype(np.int64) if rec['xdt'] == 'int64' else (x / 2).astype(rec['xdt'])
+            if hasb == 1:
+                b = b.astype(np.int64) if rec['bdt'] == 'int64' else (b / 2).astype(rec['bdt'])
         if rec.get('ncol'):
             # several right-hand sides / sets of prescribed values at once: (n, k) arrays
             b = np.array(rec['bcols'], dtype=np.float64).T.copy()
@@ -257,6 +278,8 @@ def execute_part(rec):
                         z = z + 1j * np.array([(3 * r + 2) % 11 - 5 for r in range(len(Ir))], dtype=np.float64)
                     if rec.get('ncol'):
                         z = np.stack([(c + 1) * z + c for c in range(rec['ncol'])], axis=1)
+                    if rec.get('half'):
+                        z = z + 0.5                                   # a solution that no integer array can hold
                     A_, b_, x_, kw_, _ = fresh()
                     args2 = dict(kw_)
                     if x_ is not None:
@@ -474,6 +497,22 @@ def generate(tier, seed):
                          'x': [int(v) for v in rng.integers(-5, 6, size=n)], 'diag': 1, 'ie_pow': 10, 'cplx': 1,
                          'xi': [int(v) * xc for v in rng.integers(1, 6, size=n)],
                          'bi': [int(v) * bc for v in rng.integers(1, 6, size=n)]})
+    # operands of other dtypes than float64: integer / float32 prescribed values and right-hand sides (half-integer data)
+    for xdt in ('int64', 'float32', 'float64'):
+        for bdt in ('int64', 'float32', 'float64'):
+            for j in range(4 if tier == 'thorough' else 2):
+                n = int(rng.integers(2, 8))
+                nd = int(rng.integers(1, n))
+                D = [int(v) for v in rng.permutation(n)[:nd]]
+                I = [int(v) for v in rng.permutation(np.setdiff1d(np.arange(n), D))]
+                recs.append({'driver': 'bc', 'n': n, 'A': rand_matrix(rng, n), 'hasb': 1, 'hasx': 1,
+                             'form': ['D-array', 'I-array'][j % 2], 'D': D, 'I': I,
+                             'b': [int(v) for v in 2 * rng.integers(-3, 4, size=n) + 1],
+                             'x': [int(v) for v in 2 * rng.integers(-3, 4, size=n) + 1], 'diag': 1, 'ie_pow': 10,
+                             'half': 1, 'xdt': xdt, 'bdt': bdt, 'family': 'dtype-grid',
+                             # overwrite=True writes into the caller's own array: an integer b cannot hold half-integers
+                             # (the caller's choice of container, not judged)
+                             'both_ov': not (bdt == 'int64' and xdt != 'int64')})
     # several right-hand sides and sets of prescribed values at once ((n, k) arrays), validated column by column
     for j in range(60 if tier == 'thorough' else 12):
         n = int(rng.integers(2, 8))
